@@ -42,7 +42,7 @@ Section P3.
   Definition comp (g f : nat -> pspec -> nat * pspec) (p : nat) (sp : pspec) := g (fst (f p sp)) (snd (f p sp)).
 
   Lemma emap_comp (g f : nat -> pspec -> nat * pspec) (e : expr V) : emap V g (emap V f e) = emap V (comp g f) e.
-  Proof. induction e as [p sp|v|o l IHl r IHr]; simpl; [reflexivity|reflexivity|rewrite IHl, IHr; reflexivity]. Qed.
+  Proof. induction e as [p sp|v|o l IHl r IHr|o x IHx]; simpl; [reflexivity|reflexivity|rewrite IHl, IHr; reflexivity|rewrite IHx; reflexivity]. Qed.
   Lemma amap_comp (g f : nat -> pspec -> nat * pspec) (a : assertion) : amap V g (amap V f a) = amap V (comp g f) a.
   Proof.
     induction a as [l r|l r|a IHa b IHb]; simpl; [rewrite !emap_comp|rewrite !emap_comp|rewrite IHa, IHb]; reflexivity.
@@ -196,9 +196,10 @@ Section P3.
     - repeat split; try reflexivity. intros; discriminate.
     - repeat split; try reflexivity. intros items' E. inversion E; subst. unfold dict_filter. simpl in H.
       destruct (fix_falsy cf); [reflexivity|]. simpl in H. apply filter_all. exact H.
-    - destruct k as [cls ctor| |idx|o|cls ctor]; cbn [dict_node_ok] in H; try discriminate.
+    - destruct k as [cls ctor| |idx|o|uo|cls ctor]; cbn [dict_node_ok] in H; try discriminate.
       + apply negb_true_iff in H. cbn [dict_pre dict_post]. rewrite H. cbn [andb].
         repeat split; try reflexivity. intros; discriminate.
+      + repeat split; try reflexivity. intros; discriminate.
       + repeat split; try reflexivity. intros; discriminate.
       + repeat split; try reflexivity. intros; discriminate.
       + repeat split; try reflexivity. intros; discriminate.
@@ -356,7 +357,7 @@ Section P3.
         destruct (attrs_walk_in V a p q Hpq) as [kk [c [p' [_ [Hin Hw]]]]]. subst a.
         apply (K b' kk c Hin). unfold prior_ids. apply in_map_iff. exists (p', q). auto. }
       unfold prior_ids in H. cbn [erase] in H. rewrite !erase_children in H.
-      destruct k as [cls ctor| |idx|o|cls ctor].
+      destruct k as [cls ctor| |idx|o|uo|cls ctor].
       + cbn [walk] in H. exact (KA false _ eq_refl H).
       + cbn [walk] in H. exact (KA b _ eq_refl H).
       + destruct b.
@@ -372,6 +373,10 @@ Section P3.
         * unfold prefix_paths in H. rewrite map_map in H. simpl in H. exact (K false rn r Hr H).
         * rewrite map_app in H. apply in_app_or in H. unfold prefix_paths in H. rewrite !map_map in H. simpl in H.
           destruct H as [H|H]; [exact (K false ln l Hl H)|exact (K false rn r Hr H)].
+      + destruct (ech V false ch) as [|[nm c] [|x t]] eqn:Ech; try contradiction.
+        cbn [walk] in H.
+        assert (Hc : In (nm, c) (ech V false ch)) by (rewrite Ech; left; reflexivity).
+        unfold prefix_paths in H. rewrite map_map in H. simpl in H. exact (K false nm c Hc H).
       + cbn [walk] in H. exact (KA true _ eq_refl H).
   Qed.
 
